@@ -322,9 +322,13 @@ def _same_expr(prog, f, a, b, depth=0):
 
 
 
-def _alloc_of(prog, f, base):
+def _alloc_of(prog, f, base, _seen=None):
     """allocation call that produced pointer `base` (directly, or stored to the location base was loaded from)"""
     b = strip_casts(base)
+    _seen = _seen if _seen is not None else set()
+    if id(b) in _seen:
+        return None
+    _seen.add(id(b))
     if b.is_inst and b.op == "call" and norm_callee(b.callee) in ALLOC_FNS:
         return b
     if b.is_inst and b.op == "alloca" and b.ops and not b.ops[0].is_const:
@@ -345,7 +349,7 @@ def _alloc_of(prog, f, base):
         return best
     if b.is_inst and b.op == "phi":
         for o in b.ops:
-            r = _alloc_of(prog, f, o)
+            r = _alloc_of(prog, f, o, _seen)
             if r is not None:
                 return r
     return None
